@@ -16,14 +16,18 @@ import (
 	"io"
 	"math/rand"
 	"net"
+	"net/http"
+	"net/http/httptest"
 	"strings"
 	"sync"
 	"time"
 
+	xwebsocket "golang.org/x/net/websocket"
 	"mellium.im/sasl"
 	"mellium.im/xmlstream"
 	"mellium.im/xmpp"
 	"mellium.im/xmpp/jid"
+	xmppws "mellium.im/xmpp/websocket"
 
 	"mellium.im/xmpp/verifharness/bufconn"
 	"mellium.im/xmpp/verifharness/core"
@@ -51,7 +55,7 @@ var (
 func identity() *tlspeer.Identity {
 	idOnce.Do(func() {
 		var err error
-		ident, err = tlspeer.NewIdentity(append(append([]string{}, domains...), explicitName)...)
+		ident, err = tlspeer.NewIdentity(append(append([]string{}, domains...), explicitName, foreignDomain)...)
 		if err != nil {
 			panic(err)
 		}
@@ -106,8 +110,19 @@ type scenario struct {
 	// "connstate" a net.Conn wrapper with a ConnectionState() method (reporting
 	// no TLS), "rw" a bare io.ReadWriter, "connstate-rw" an io.ReadWriter with a
 	// ConnectionState() method.
-	Wrap  string `json:"wrap,omitempty"`
-	Order []int  `json:"feature_order"`
+	Wrap string `json:"wrap,omitempty"`
+	// WS: the client speaks the WebSocket subprotocol framing (RFC 7395) over
+	// the same kind of transport: "negotiator" = xmpp.NewSession with
+	// websocket.Negotiator, "newsession" = websocket.NewSession.
+	WS string `json:"ws,omitempty"`
+	// RealWS: the transport is a real x/net/websocket connection dialled with
+	// websocket.Dialer{InsecureNoTLS: true} to a ws:// endpoint on 127.0.0.1;
+	// the value is the scheme of the WebSocket origin ("http" or "https").
+	RealWS string `json:"real_ws,omitempty"`
+	// ClearTo: the `to` of the peer's clear-text stream header: "" the
+	// session's own address, "omitted", or a foreign address (full, bare, domain).
+	ClearTo string `json:"clear_to,omitempty"`
+	Order   []int  `json:"feature_order"`
 }
 
 func genScenario(r *rand.Rand) scenario {
@@ -135,6 +150,23 @@ func genScenario(r *rand.Rand) scenario {
 	}
 	sc.CfgFunc = []string{"static", "static", "static", "static", "static", "session-dependent", "session-dependent", "session-only"}[r.Intn(8)]
 	sc.Wrap = []string{"", "", "", "", "", "", "connstate", "connstate", "rw", "connstate-rw"}[r.Intn(10)]
+	if r.Intn(5) == 0 {
+		sc.WS = "negotiator"
+	}
+	switch r.Intn(12) {
+	case 0:
+		sc.ClearTo = "omitted"
+	case 1:
+		sc.ClearTo = "foreign-full"
+	case 2:
+		sc.ClearTo = "foreign-bare"
+	case 3:
+		sc.ClearTo = "foreign-domain"
+	}
+	if sc.ClearTo != "" && r.Intn(3) > 0 {
+		// the server name check needs the default configuration and a <proceed/>
+		sc.Cfg, sc.Answer = "default", "proceed-tls"
+	}
 	return sc
 }
 
@@ -147,8 +179,7 @@ func tlsHeader(sc scenario, id string) string {
 	if sc.TLSHdr != "no-id" && sc.TLSHdr != "no-id-version" {
 		attrs += " id='" + id + "'"
 	}
-	return fmt.Sprintf(`<?xml version='1.0'?><stream:stream xmlns='jabber:client' xmlns:stream='%s'%s from='%s' to='%s@%s/res'>`,
-		nsStream, attrs, sc.Domain, user, sc.Domain)
+	return header(sc, attrs+" from='"+sc.Domain+"' to='"+user+"@"+sc.Domain+"/res'")
 }
 
 func mechsXML() string {
@@ -187,9 +218,45 @@ func advXML(sc scenario) string {
 	return "<stream:features>" + in + "</stream:features>"
 }
 
+const (
+	nsFraming     = "urn:ietf:params:xml:ns:xmpp-framing"
+	foreignDomain = "evil.example"
+)
+
+// header is a stream header with the given attributes in the framing sc uses.
+func header(sc scenario, attrs string) string {
+	if sc.WS != "" {
+		return "<open xmlns='" + nsFraming + "'" + attrs + "/>"
+	}
+	return "<?xml version='1.0'?><stream:stream xmlns='jabber:client' xmlns:stream='" + nsStream + "'" + attrs + ">"
+}
+
+// peerHeader is the peer's clear-text stream header.
 func peerHeader(sc scenario, id string) string {
-	return fmt.Sprintf(`<?xml version='1.0'?><stream:stream xmlns='jabber:client' xmlns:stream='%s' version='1.0' id='%s' from='%s' to='%s@%s/res'>`,
-		nsStream, id, sc.Domain, user, sc.Domain)
+	to := " to='" + user + "@" + sc.Domain + "/res'"
+	switch sc.ClearTo {
+	case "omitted":
+		to = ""
+	case "foreign-full":
+		to = " to='mallory@" + foreignDomain + "/x'"
+	case "foreign-bare":
+		to = " to='mallory@" + foreignDomain + "'"
+	case "foreign-domain":
+		to = " to='" + foreignDomain + "'"
+	}
+	return header(sc, " version='1.0' id='"+id+"' from='"+sc.Domain+"'"+to)
+}
+
+// frame adapts what the peer says to the WebSocket framing, where every
+// top-level element is a document of its own and declares its namespaces.
+func frame(sc scenario, s string) string {
+	if sc.WS == "" {
+		return s
+	}
+	s = strings.ReplaceAll(s, "<stream:features", "<stream:features xmlns:stream='"+nsStream+"'")
+	s = strings.ReplaceAll(s, "<stream:error", "<stream:error xmlns:stream='"+nsStream+"'")
+	s = strings.ReplaceAll(s, "<iq ", "<iq xmlns='jabber:client' ")
+	return s
 }
 
 // ---------------------------------------------------------------------------
@@ -260,6 +327,15 @@ func nextEvent(d *xml.Decoder) (string, anyEl) {
 			if t.Name.Local == "stream" && t.Name.Space == nsStream {
 				return "hdr", anyEl{}
 			}
+			if t.Name.Space == nsFraming {
+				if d.Skip() != nil {
+					return "", anyEl{}
+				}
+				if t.Name.Local == "open" {
+					return "hdr", anyEl{}
+				}
+				return "end", anyEl{}
+			}
 			var el anyEl
 			if err := d.DecodeElement(&el, &t); err != nil {
 				return "", anyEl{}
@@ -273,8 +349,9 @@ func forgedClear(sc scenario) string {
 	return peerHeader(sc, "forged") + "<stream:features/>" + "<success xmlns='" + nsSASL + "'/>"
 }
 
-func runPeer(conn *bufconn.Conn, sc scenario, rec *peerRec) {
+func runPeer(conn net.Conn, sc scenario, rec *peerRec) {
 	defer conn.Close()
+	out := func(w io.Writer, s string) { io.WriteString(w, frame(sc, s)) }
 	note := func(f func()) { rec.mu.Lock(); f(); rec.mu.Unlock() }
 	d := xml.NewDecoder(conn)
 	ev, _ := nextEvent(d)
@@ -282,7 +359,7 @@ func runPeer(conn *bufconn.Conn, sc scenario, rec *peerRec) {
 	if ev != "hdr" {
 		return
 	}
-	io.WriteString(conn, peerHeader(sc, clearID)+advXML(sc))
+	out(conn, peerHeader(sc, clearID)+advXML(sc))
 	ev, _ = nextEvent(d)
 	if ev == "" {
 		return
@@ -298,59 +375,59 @@ func runPeer(conn *bufconn.Conn, sc scenario, rec *peerRec) {
 	}
 	switch sc.Answer {
 	case "proceed-tls":
-		io.WriteString(conn, proceed)
+		out(conn, proceed)
 	case "proceed-pipelined-tls":
 		note(func() { rec.Pipelined = true })
-		io.WriteString(conn, proceed+forgedClear(sc)) // one write: lands in the old decoder's buffer
+		out(conn, proceed+forgedClear(sc)) // one write: lands in the old decoder's buffer
 	case "proceed-pipelined-eof":
 		note(func() { rec.Pipelined = true })
-		io.WriteString(conn, proceed+forgedClear(sc))
+		out(conn, proceed+forgedClear(sc))
 		waitHello()
 		return
 	case "proceed-eof":
-		io.WriteString(conn, proceed)
+		out(conn, proceed)
 		waitHello()
 		return
 	case "proceed-cleartext":
-		io.WriteString(conn, proceed)
+		out(conn, proceed)
 		waitHello()
-		io.WriteString(conn, forgedClear(sc)) // read by the TLS layer, not an XML decoder
+		out(conn, forgedClear(sc)) // read by the TLS layer, not an XML decoder
 		return
 	case "failure":
-		io.WriteString(conn, "<failure xmlns='"+nsTLS+"'/>")
+		out(conn, "<failure xmlns='"+nsTLS+"'/>")
 		return
 	case "unknown-el":
-		io.WriteString(conn, "<continue xmlns='"+nsTLS+"'/>")
+		out(conn, "<continue xmlns='"+nsTLS+"'/>")
 		return
 	case "proceed-wrongns":
-		io.WriteString(conn, "<proceed xmlns='jabber:client'/>")
+		out(conn, "<proceed xmlns='jabber:client'/>")
 		return
 	case "text":
-		io.WriteString(conn, "proceed")
+		out(conn, "proceed")
 		return
 	case "eof":
 		return
 	case "success-forged":
-		io.WriteString(conn, "<success xmlns='"+nsSASL+"'/>")
+		out(conn, "<success xmlns='"+nsSASL+"'/>")
 		return
 	case "features-again":
-		io.WriteString(conn, "<stream:features>"+mechsXML()+"</stream:features>")
+		out(conn, "<stream:features>"+mechsXML()+"</stream:features>")
 		return
 	case "stream-error":
-		io.WriteString(conn, "<stream:error><policy-violation xmlns='urn:ietf:params:xml:ns:xmpp-streams'/></stream:error>")
+		out(conn, "<stream:error><policy-violation xmlns='urn:ietf:params:xml:ns:xmpp-streams'/></stream:error>")
 		return
 	case "ws-proceed-tls":
-		io.WriteString(conn, "\n"+proceed) // a client may skip the white space or refuse it; then real TLS
+		out(conn, "\n"+proceed) // a client may skip the white space or refuse it; then real TLS
 	case "ws-eof":
-		io.WriteString(conn, " \n")
+		out(conn, " \n")
 		return
 	case "ws-failure":
-		io.WriteString(conn, "\n<failure xmlns='"+nsTLS+"'/>")
+		out(conn, "\n<failure xmlns='"+nsTLS+"'/>")
 		return
 	case "ws-features":
 		// white space, then a features list in clear text that invites the client
 		// to authenticate and bind; whatever the client answers is on the record
-		io.WriteString(conn, "\n<stream:features>"+mechsXML()+"<bind xmlns='"+nsBind+"'/></stream:features>")
+		out(conn, "\n<stream:features>"+mechsXML()+"<bind xmlns='"+nsBind+"'/></stream:features>")
 		if ev, _ := nextEvent(d); ev != "" {
 			note(func() { rec.AfterWS = append(rec.AfterWS, ev) })
 		}
@@ -404,25 +481,25 @@ func runPeer(conn *bufconn.Conn, sc scenario, rec *peerRec) {
 	if sc.InTLS == "features-empty" {
 		note(func() { rec.ReadyPoint = true })
 		note(func() { rec.TLSHeaders++ })
-		io.WriteString(tc, tlsHeader(sc, "t1")+"<stream:features/>")
+		out(tc, tlsHeader(sc, "t1")+"<stream:features/>")
 		tev()
 		return
 	}
 	note(func() { rec.TLSHeaders++ })
-	io.WriteString(tc, tlsHeader(sc, "t1")+"<stream:features>"+inst+mechsXML()+"</stream:features>")
+	out(tc, tlsHeader(sc, "t1")+"<stream:features>"+inst+mechsXML()+"</stream:features>")
 	if ev, _ := tev(); ev != "{"+nsSASL+"}auth" {
 		return
 	}
 	if sc.InTLS == "auth-failure" {
-		io.WriteString(tc, "<failure xmlns='"+nsSASL+"'><not-authorized/></failure>")
+		out(tc, "<failure xmlns='"+nsSASL+"'><not-authorized/></failure>")
 		return
 	}
-	io.WriteString(tc, "<success xmlns='"+nsSASL+"'/>")
+	out(tc, "<success xmlns='"+nsSASL+"'/>")
 	if ev, _ := tev(); ev != "hdr" {
 		return
 	}
 	note(func() { rec.TLSHeaders++ })
-	io.WriteString(tc, tlsHeader(sc, "t2")+"<stream:features><bind xmlns='"+nsBind+"'/></stream:features>")
+	out(tc, tlsHeader(sc, "t2")+"<stream:features><bind xmlns='"+nsBind+"'/></stream:features>")
 	ev, el := tev()
 	if ev != "{jabber:client}iq" {
 		return
@@ -430,7 +507,7 @@ func runPeer(conn *bufconn.Conn, sc scenario, rec *peerRec) {
 	note(func() { rec.ReadyPoint = true })
 	var idb strings.Builder
 	xml.EscapeText(&idb, []byte(el.attr("id")))
-	io.WriteString(tc, "<iq type='result' id='"+idb.String()+"'><bind xmlns='"+nsBind+"'><jid>"+user+"@"+sc.Domain+"/bound</jid></bind></iq>")
+	out(tc, "<iq type='result' id='"+idb.String()+"'><bind xmlns='"+nsBind+"'><jid>"+user+"@"+sc.Domain+"/bound</jid></bind></iq>")
 	tev() // until the client hangs up
 }
 
@@ -525,15 +602,53 @@ func instFeature(sink func(instCall)) xmpp.StreamFeature {
 // feature value against a fresh peer.
 func runSession(c *core.Case, sc scenario, stls xmpp.StreamFeature, sh *shared) result {
 	identity()
-	lib, peer := bufconn.Pipe()
 	rec := &peerRec{}
 	peerDone := make(chan struct{})
-	go func() {
-		defer close(peerDone)
-		runPeer(peer, sc, rec)
-	}()
-
 	var res result
+	var libConn net.Conn         // the client's end
+	var rawWritten func() []byte // what the client put on the connection, byte for byte
+	closeBoth := func() {}
+	if sc.RealWS == "" {
+		lib, peer := bufconn.Pipe()
+		go func() {
+			defer close(peerDone)
+			runPeer(peer, sc, rec)
+		}()
+		libConn, rawWritten = lib, lib.Written
+		closeBoth = func() { lib.Close(); peer.Close() }
+	} else {
+		// a real WebSocket connection to an in-process ws:// endpoint; the byte
+		// monitor reads the payload the server end received
+		var once sync.Once
+		rc := &recConn{}
+		srv := httptest.NewServer(xwebsocket.Server{
+			Handshake: func(cfg *xwebsocket.Config, _ *http.Request) error {
+				cfg.Protocol = []string{xmppws.WSProtocol}
+				return nil
+			},
+			Handler: func(ws *xwebsocket.Conn) {
+				ran := false
+				once.Do(func() { ran = true })
+				if !ran {
+					return
+				}
+				defer close(peerDone)
+				rc.set(ws)
+				runPeer(rc, sc, rec)
+			},
+		})
+		defer srv.Close()
+		d := xmppws.Dialer{Origin: sc.RealWS + "://" + sc.Domain, InsecureNoTLS: true}
+		conn, derr := d.DialDirect(context.Background(), "ws://"+strings.TrimPrefix(srv.URL, "http://")+"/xmpp-websocket")
+		if derr != nil {
+			c.Inconclusive("cannot dial the in-process WebSocket endpoint: %v", derr)
+			res.Wedged = true
+			return res
+		}
+		libConn, rawWritten = conn, rc.received
+		closeBoth = func() { conn.Close(); rc.Close() }
+	}
+
 	var imu sync.Mutex
 	sink := func(ic instCall) {
 		imu.Lock()
@@ -542,18 +657,20 @@ func runSession(c *core.Case, sc scenario, stls xmpp.StreamFeature, sh *shared) 
 	}
 	var teeIn, teeOut bytes.Buffer
 	var neg xmpp.Negotiator
+	var feats []xmpp.StreamFeature
 	if sh != nil {
 		sh.sink = sink
 		neg = sh.neg
+		feats = sh.feats
 	} else {
-		feats := buildFeatures(sc, stls, sink)
+		feats = buildFeatures(sc, stls, sink)
 		var noTLS []xmpp.StreamFeature
 		for _, f := range feats {
 			if f.Name.Space != nsTLS {
 				noTLS = append(noTLS, f)
 			}
 		}
-		neg = xmpp.NewNegotiator(func(s *xmpp.Session, _ *xmpp.StreamConfig) xmpp.StreamConfig {
+		cfgFunc := func(s *xmpp.Session, _ *xmpp.StreamConfig) xmpp.StreamConfig {
 			cfg := xmpp.StreamConfig{Features: feats}
 			if s == nil {
 				// NewNegotiator probes the function with a nil session; it is
@@ -572,10 +689,16 @@ func runSession(c *core.Case, sc scenario, stls xmpp.StreamFeature, sh *shared) 
 				cfg.TeeOut = &teeOut
 			}
 			return cfg
-		})
+		}
+		switch sc.WS {
+		case "":
+			neg = xmpp.NewNegotiator(cfgFunc)
+		case "negotiator":
+			neg = xmppws.Negotiator(cfgFunc)
+		}
 	}
 	origin := jid.MustParse(user + "@" + sc.Domain + "/res")
-	rw := wrapTransport(sc.Wrap, lib)
+	rw := wrapTransport(sc.Wrap, libConn)
 
 	var s *xmpp.Session
 	var err error
@@ -583,8 +706,12 @@ func runSession(c *core.Case, sc scenario, stls xmpp.StreamFeature, sh *shared) 
 	go func() {
 		defer close(done)
 		c.Guard("NewSession", func() {
+			if neg == nil && sc.WS != "" {
+				s, err = xmppws.NewSession(context.Background(), origin, rw, feats...)
+				return
+			}
 			if neg == nil {
-				s, err = xmpp.NewClientSession(context.Background(), origin, rw, sh.feats...)
+				s, err = xmpp.NewClientSession(context.Background(), origin, rw, feats...)
 				return
 			}
 			s, err = xmpp.NewSession(context.Background(), origin.Domain(), origin, rw, 0, neg)
@@ -594,11 +721,10 @@ func runSession(c *core.Case, sc scenario, stls xmpp.StreamFeature, sh *shared) 
 	case <-done:
 	case <-time.After(5 * time.Second):
 		res.Wedged = true
-		lib.Close()
-		peer.Close()
+		closeBoth()
 		<-done
 	}
-	raw := lib.Written()
+	raw := rawWritten()
 	res.ErrNil = err == nil
 	if err != nil {
 		res.Err = err.Error()
@@ -609,14 +735,18 @@ func runSession(c *core.Case, sc scenario, stls xmpp.StreamFeature, sh *shared) 
 		in := s.In()
 		res.InID, res.InVersion = in.ID, in.Version.String()
 	}
-	lib.Close()
+	libConn.Close()
 	<-peerDone
 	res.Peer = rec.snapshot()
 	res.TeeIn, res.TeeOut = teeIn.Len(), teeOut.Len()
 
 	clear, n, wellFormed := tlspeer.SplitRecords(raw)
 	res.Clear, res.Records = string(clear), n
-	res.Issues = checkClear(clear)
+	if sc.WS != "" {
+		res.Issues = checkClearWS(clear)
+	} else {
+		res.Issues = checkClear(clear)
+	}
 	if !wellFormed {
 		res.Issues = append(res.Issues, "bytes-after-first-tls-record")
 	}
@@ -703,6 +833,97 @@ func checkClear(b []byte) (issues []string) {
 	}
 }
 
+// checkClearWS is checkClear for the WebSocket framing: one <open/>, at most
+// one <starttls/>, both top-level documents.
+func checkClearWS(b []byte) (issues []string) {
+	d := xml.NewDecoder(bytes.NewReader(b))
+	depth, opens, starttls := 0, 0, 0
+	top := ""
+	for {
+		tok, err := d.Token()
+		if err != nil {
+			if err != io.EOF && !strings.Contains(err.Error(), "unexpected EOF") {
+				issues = append(issues, "malformed")
+			}
+			return issues
+		}
+		switch t := tok.(type) {
+		case xml.ProcInst:
+			issues = append(issues, "procinst")
+		case xml.Comment:
+			issues = append(issues, "comment")
+		case xml.Directive:
+			issues = append(issues, "directive")
+		case xml.CharData:
+			if len(bytes.TrimSpace(t)) != 0 && depth == 0 {
+				issues = append(issues, "text")
+			}
+		case xml.StartElement:
+			depth++
+			switch {
+			case depth == 1 && t.Name.Space == nsFraming && t.Name.Local == "open":
+				opens++
+				top = "open"
+				if opens > 1 {
+					issues = append(issues, "second-header")
+				}
+			case depth == 1 && t.Name.Space == nsFraming:
+				top = "close"
+				issues = append(issues, "stream-end")
+			case depth == 1 && t.Name.Space == nsTLS && t.Name.Local == "starttls":
+				starttls++
+				top = "starttls"
+				if opens == 0 {
+					issues = append(issues, "element-before-header")
+				}
+				if starttls > 1 {
+					issues = append(issues, "second-starttls")
+				}
+			case depth == 1:
+				top = "other"
+				issues = append(issues, "element:"+nsClass(t.Name.Space)+":"+t.Name.Local)
+			case top == "starttls":
+				issues = append(issues, "starttls-content")
+			}
+		case xml.EndElement:
+			depth--
+		}
+	}
+}
+
+// recConn records what is read from a connection that is set later.
+type recConn struct {
+	net.Conn
+	mu  sync.Mutex
+	buf []byte
+}
+
+func (r *recConn) set(c net.Conn) { r.mu.Lock(); r.Conn = c; r.mu.Unlock() }
+
+func (r *recConn) Read(p []byte) (int, error) {
+	n, err := r.Conn.Read(p)
+	r.mu.Lock()
+	r.buf = append(r.buf, p[:n]...)
+	r.mu.Unlock()
+	return n, err
+}
+
+func (r *recConn) Close() error {
+	r.mu.Lock()
+	c := r.Conn
+	r.mu.Unlock()
+	if c == nil {
+		return nil
+	}
+	return c.Close()
+}
+
+func (r *recConn) received() []byte {
+	r.mu.Lock()
+	defer r.mu.Unlock()
+	return append([]byte(nil), r.buf...)
+}
+
 func nsClass(ns string) string {
 	switch ns {
 	case nsSASL:
@@ -743,6 +964,36 @@ func judge(c *core.Case, sc scenario, res result, prior []string) {
 		c.Count("cfgfunc_"+sc.CfgFunc+"_sessions", 1)
 		if forced {
 			c.Count("cfgfunc_"+sc.CfgFunc+"_forced_starttls", 1)
+		}
+	}
+	if sc.WS != "" && sc.RealWS == "" {
+		c.Count("ws_framed_sessions_"+sc.WS, 1)
+		if forced {
+			c.Count("ws_framed_forced_starttls", 1)
+		}
+		if res.Peer.HandshakeOK {
+			c.Count("ws_framed_handshakes", 1)
+		}
+		if res.ready() && res.Handshook {
+			c.Count("ws_framed_ready_over_tls", 1)
+		}
+	}
+	if sc.RealWS != "" {
+		c.Count("real_ws_sessions_origin_"+sc.RealWS, 1)
+		if len(res.Peer.Clear) >= 2 && res.Peer.Clear[1] == "{"+nsTLS+"}starttls" {
+			c.Count("real_ws_starttls_requested_origin_"+sc.RealWS, 1)
+		}
+		if res.Peer.HandshakeOK {
+			c.Count("real_ws_handshakes", 1)
+		}
+	}
+	if sc.ClearTo != "" {
+		c.Count("clear_to_"+sc.ClearTo, 1)
+		if strings.HasPrefix(sc.ClearTo, "foreign") && len(res.Peer.Clear) == 1 && !res.ErrNil {
+			c.Count("clear_to_foreign_stopped_negotiation", 1)
+		}
+		if sc.ClearTo == "omitted" && res.Peer.Hellos > 0 {
+			c.Count("clear_to_omitted_reached_tls", 1)
 		}
 	}
 	if sc.Wrap != "" {
@@ -1007,14 +1258,31 @@ func sliceReuseGroup(c *core.Case, r *rand.Rand) {
 	c.Sample(gs)
 	sh := &shared{}
 	sh.feats = buildFeatures(gs.Scenarios[0], startTLSFor(gs.Scenarios[0]), func(ic instCall) { sh.sink(ic) })
+	ws := r.Intn(3) == 0 // the same, in the WebSocket framing
+	if ws {
+		c.Count("slice_reuse_groups_ws_framed", 1)
+	}
 	if r.Intn(2) == 0 {
 		gs.Kind = "slice-reuse-negotiator"
-		sh.neg = xmpp.NewNegotiator(func(*xmpp.Session, *xmpp.StreamConfig) xmpp.StreamConfig {
+		f := func(*xmpp.Session, *xmpp.StreamConfig) xmpp.StreamConfig {
 			return xmpp.StreamConfig{Features: sh.feats}
-		})
+		}
+		if ws {
+			sh.neg = xmppws.Negotiator(f)
+		} else {
+			sh.neg = xmpp.NewNegotiator(f)
+		}
 		c.Count("slice_reuse_groups_shared_negotiator", 1)
 	} else {
 		c.Count("slice_reuse_groups_newclientsession", 1)
+	}
+	for i := range gs.Scenarios {
+		if ws {
+			gs.Scenarios[i].WS = "newsession"
+			if sh.neg != nil {
+				gs.Scenarios[i].WS = "negotiator"
+			}
+		}
 	}
 	var prior []string
 	firstSecure := false
@@ -1040,6 +1308,41 @@ func sliceReuseGroup(c *core.Case, r *rand.Rand) {
 	}
 }
 
+// realWSGroup negotiates over real WebSocket connections to an in-process
+// ws:// endpoint, once per origin scheme: the transport is not TLS whatever
+// the origin says.
+func realWSGroup(c *core.Case, r *rand.Rand) {
+	gs := &groupSample{Kind: "real-websocket"}
+	base := genScenario(r)
+	base.Tee, base.CfgFunc, base.Wrap, base.ClearTo, base.WS = "off", "static", "", "", "newsession"
+	if r.Intn(2) == 0 {
+		base.Adv = []string{"mechs-only", "empty", "mechs+bind", "tls-required+others"}[r.Intn(4)]
+	}
+	origins := []string{"http", "https"}
+	if r.Intn(2) == 0 {
+		origins = []string{"https", "http"}
+	}
+	c.Sample(gs)
+	for _, o := range origins {
+		sc := base
+		sc.RealWS = o
+		gs.Scenarios = append(gs.Scenarios, sc)
+		res := runSession(c, sc, startTLSFor(sc), nil)
+		gs.Results = append(gs.Results, res)
+		judge(c, sc, res, nil)
+		c.Sig("real-ws|%s|%s|%s|%s|%s", o, sc.Adv, sc.Answer, sc.InTLS, outcomeClass(res))
+	}
+	if len(gs.Results) == 2 && !gs.Results[0].Wedged && !gs.Results[1].Wedged {
+		// the origin is not part of the transport: same clear bytes, same outcome
+		c.Count("real_ws_origin_pairs_compared", 1)
+		a, b := gs.Results[0], gs.Results[1]
+		if a.Clear != b.Clear || a.outcome() != b.outcome() {
+			c.Violate("ws:origin-changes-outcome", "the same peer script over ws:// gives {%s} clear=%q with origin %s:// and {%s} clear=%q with origin %s:// (scenario %+v)",
+				a.outcome(), a.Clear, origins[0], b.outcome(), b.Clear, origins[1], base)
+		}
+	}
+}
+
 func without(l []string, x string) []string {
 	var out []string
 	for _, s := range l {
@@ -1052,7 +1355,7 @@ func without(l []string, x string) []string {
 
 func run(c *core.Case) {
 	r := c.Rand
-	switch k := r.Intn(20); {
+	switch k := r.Intn(21); {
 	case k < 12:
 		base := genScenario(r)
 		modes := []string{teeKinds[1+r.Intn(3)]}
@@ -1064,8 +1367,10 @@ func run(c *core.Case) {
 		reuseGroup(c, r, false)
 	case k < 17:
 		reuseGroup(c, r, true)
-	default:
+	case k < 19:
 		sliceReuseGroup(c, r)
+	default:
+		realWSGroup(c, r)
 	}
 }
 
@@ -1098,7 +1403,10 @@ func Prop() *core.Prop {
 	req = append(req, "cfgfunc_session-dependent_forced_starttls", "cfgfunc_session-only_forced_starttls",
 		"wrap_connstate_sessions", "wrap_connstate_handshakes", "wrap_rw_sessions", "wrap_connstate-rw_sessions",
 		"slice_reuse_groups_shared_negotiator", "slice_reuse_groups_newclientsession",
-		"slice_reuse_first_session_ready_over_tls", "slice_reuse_later_session_forced_starttls")
+		"slice_reuse_first_session_ready_over_tls", "slice_reuse_later_session_forced_starttls",
+		"slice_reuse_groups_ws_framed", "ws_framed_sessions_negotiator", "ws_framed_sessions_newsession", "ws_framed_forced_starttls",
+		"real_ws_sessions_origin_http", "real_ws_sessions_origin_https", "real_ws_starttls_requested_origin_https", "real_ws_origin_pairs_compared",
+		"clear_to_omitted", "clear_to_foreign-full", "clear_to_foreign-bare", "clear_to_foreign-domain", "clear_to_foreign_stopped_negotiation")
 	for _, a := range advKinds {
 		req = append(req, "adv_"+a)
 	}
